@@ -403,6 +403,13 @@ pub fn sigs_for(tier: &str, seed: u64) -> Vec<Sig> {
         Some(Ty::Tuple(rep(p("u16"), 16))),
         Some(Ty::Tuple(rep(p("u32"), 17))),
         Some(Ty::Record(vec![p("u8"), p("f64"), p("string"), Ty::Opt(b(p("u64")))])),
+        // u16-discriminant variant through the return area / task.return
+        Some({
+            let mut big: Vec<Option<Ty>> = (0..300).map(|_| None).collect();
+            big[1] = Some(p("u8"));
+            big[299] = Some(p("string"));
+            Ty::Variant(big)
+        }),
     ];
     // flat counts 0, 1, 3, 4, 5, 15, 16, 17, 20 with mixed classes
     let mixes: Vec<Vec<Ty>> = vec![
@@ -455,6 +462,15 @@ pub fn sigs_for(tier: &str, seed: u64) -> Vec<Sig> {
         vec![Ty::Fixed(b(p("u32")), 3), p("f64")],
         vec![Ty::Fixed(b(p("u8")), 17)],
         vec![Ty::Map(b(p("string")), b(p("u32")))],
+        // a u16-discriminant variant inside an indirect parameter record
+        {
+            let mut big: Vec<Option<Ty>> = (0..300).map(|_| None).collect();
+            big[0] = Some(p("u8"));
+            big[299] = Some(p("u64"));
+            let mut m = vec![p("u8"), Ty::Variant(big)];
+            m.extend(rep(p("u32"), 15));
+            m
+        },
     ];
     for (i, m) in mixes.iter().enumerate() {
         // each parameter mix with a rotating pair of results
